@@ -31,12 +31,12 @@ ASSUMPTIONS = ['bit flips inside a stored value may change that value without ma
                'trials only "no exception, next save complete and loadable" is judged, not the restored values',
                'the pickle format is the one produced by the running interpreter']
 DECIDING_HOOKS = ['Context.persist', 'Context.restore']
-DECIDING_COUNTERS = {'fault_points': 1000, 'second_document_shared_labels': 5, 'cross_document_refs': 5}
+DECIDING_COUNTERS = {'fault_points': 1000, 'second_document_shared_labels': 5, 'cross_document_refs': 5, 'compiled_pairs': 5}
 
 
 def budget(tier):
     q = tier == 'quick'
-    return {'n_sets': 10 if q else 300, 'n_round': 12 if q else 200, 'n_seq': 300 if q else 6000, 'block': 400, 'case_timeout': 300}
+    return {'n_sets': 10 if q else 300, 'n_round': 12 if q else 200, 'n_seq': 300 if q else 6000, 'n_compile': 16 if q else 300, 'block': 400, 'case_timeout': 300}
 
 
 def setup(st):
@@ -96,6 +96,13 @@ def cases(seed, tier, shard, nshards):
         r = common.rng_for(seed, PROP, i, 'round')
         d = docs.gen(r, labels=True, refs=False, verbatim=False, tables=False, depth=2, maxsec=5, counters=False)
         yield {'kind': 'round', 'src': docs.latex(d), 'labels': d['labels'], 'renderer': r.choice(['HTML5', 'XHTML'])}
+    for i in common.sharded(b['n_compile'], shard, nshards):
+        r = common.rng_for(seed, PROP, i, 'compile')
+        # two documents compiled one after the other in one directory by plasTeX.Compile.run; job names that contain each other
+        prov, cons = r.choice([['manual', 'guide'], ['userguide', 'guide'], ['aa', 'a'], ['a', 'aa'], ['part1', 'mypart1'], ['x.y', 'y'], ['doc', 'doc2']])
+        n = r.randint(1, 4)
+        labs = ['%s:%s%d' % (r.choice(['sec', 'ch']), r.choice('abx'), k) for k in range(n)]
+        yield {'kind': 'compile', 'provider': prov, 'consumer': cons, 'labels': labs, 'renderer': r.choice(['HTML5', 'XHTML']), 'shared': r.random() < 0.3}
     for i in common.sharded(b['n_seq'], shard, nshards):
         r = common.rng_for(seed, PROP, i, 'seq')
         ops = []
@@ -215,6 +222,8 @@ def run(case, st):
         return run_faults(case, st)
     if k == 'round':
         return run_round(case, st)
+    if k == 'compile':
+        return run_compile(case, st)
     return run_seq(case, st)
 
 
@@ -419,6 +428,83 @@ def run_round(case, st):
         return {'nontrivial': len(sec) >= 2, 'sample': {'renderer': rn, 'labels': sorted(sec)[:5]}}
     finally:
         out.cleanup()
+
+
+def run_compile(case, st):
+    """the whole path of the command-line program: Compile.run on a providing document, then on a consuming document in the same
+    directory; every label the provider saved must be restored for the consumer (same number) and the consumer's references resolve"""
+    import shutil
+    from plasTeX import Compile
+    from ..obs import render as R
+    rn = case['renderer']
+    tmp = tempfile.mkdtemp(prefix='c20c-', dir=os.environ.get('PVMON_TMP') or None)
+    cwd = os.getcwd()
+    labs = case['labels']
+    try:
+        os.chdir(tmp)
+        with open(case['provider'] + '.tex', 'w') as f:
+            f.write('\\documentclass{article}\\begin{document}' + ''.join('\\section{Zp%dy}\\label{%s} Zt%dy ' % (i, l, i) for i, l in enumerate(labs)) + '\\end{document}\n')
+        own = [labs[0]] if case['shared'] else []
+        with open(case['consumer'] + '.tex', 'w') as f:
+            f.write('\\documentclass{article}\\begin{document}Zq ' + ''.join('\\section{Zc%dy}\\label{%s} ' % (i, l) for i, l in enumerate(own))
+                    + ' '.join('Wq%dx \\ref{%s}' % (i, l) for i, l in enumerate(labs)) + '\\end{document}\n')
+        texs = []
+        for job in (case['provider'], case['consumer']):
+            cfg = R.new_config({('general', 'renderer'): rn, ('files', 'log'): False})
+            common.plastex_reset()
+            try:
+                tex = Compile.parse(job + '.tex', cfg)
+                doc = tex.ownerDocument
+                r = Compile.load_renderer(rn, cfg)
+                out = os.path.join(tmp, 'out-' + job)
+                os.makedirs(out, exist_ok=True)
+                os.chdir(out)
+                try:
+                    r.render(doc)
+                finally:
+                    os.chdir(tmp)
+            except common.CaseTimeout:
+                raise
+            except Exception as e:
+                st.violation('compile/raises-' + type(e).__name__, case, 'compiling %s.tex: %s' % (job, traceback.format_exc()[-600:]))
+                return {'nontrivial': True}
+            finally:
+                common.plastex_reset()
+            texs.append(tex)
+        st.counters['compiled_pairs'] += 1
+        pp = case['provider'] + '.paux'
+        if not os.path.exists(pp):
+            st.violation('compile/paux-not-written', case, 'no %s in %r' % (pp, sorted(os.listdir(tmp))))
+            return {'nontrivial': True}
+        saved = pickle.load(open(pp, 'rb')).get(rn, {})
+        doc2 = texs[1].ownerDocument
+        for i, l in enumerate(labs):
+            want = str(i + 1)
+            if saved.get(l, {}).get('ref') != want:
+                st.violation('compile/saved-number', case, 'provider saved %r for %s, its section number is %s' % (saved.get(l), l, want))
+                return {'nontrivial': True}
+            node = doc2.context.labels.get(l)
+            if l in own:
+                if node is None or node.ownerDocument is not doc2 or node.__dict__.get('ref') is not None and str(node.__dict__.get('ref')) == '' :
+                    st.violation('compile/own-label', case, 'the consumer\'s own label %s names %r' % (l, node))
+                    return {'nontrivial': True}
+                continue
+            if node is None:
+                st.violation('compile/label-not-restored', case, 'label %s saved by %s.paux is not known while %s.tex is processed (labels: %r)' % (l, case['provider'], case['consumer'], sorted(doc2.context.labels)))
+                return {'nontrivial': True}
+            if str(node.__dict__.get('ref')) != want:
+                st.violation('compile/restored-number', case, 'label %s restored with number %r, saved %r' % (l, node.__dict__.get('ref'), want))
+                return {'nontrivial': True}
+        for rnode in doc2.getElementsByTagName('ref'):
+            l = rnode.attributes['label']
+            if rnode.idref.get('label') is not doc2.context.labels.get(l):
+                st.violation('compile/reference-unresolved', case, '\\ref{%s} in %s.tex resolves to %r' % (l, case['consumer'], rnode.idref.get('label')))
+                return {'nontrivial': True}
+        st.feature('job-names', case['provider'] + '>' + case['consumer'])
+        return {'nontrivial': True, 'sample': {'provider': case['provider'], 'consumer': case['consumer'], 'labels': labs}}
+    finally:
+        os.chdir(cwd)
+        shutil.rmtree(tmp, ignore_errors=True)
 
 
 def run_seq(case, st):
